@@ -6,7 +6,9 @@ renames, exec flips, symlinks, kind changes, binary/empty files, merges), built
 with real commits behind the vfs seam, for repository/bundle format pairs
 (2a, v4), (2a, 0.9), (pack-0.92, 0.8) [thorough: + (pack-0.92, 0.9/4)] and EVERY
 (base, target) pair with base = null: or a proper ancestor of target:
- B  write_bundle -> read_bundle -> install_revisions into a fresh repository that
+ B  (plus, for the same formats, 4-revision histories [a,b,a,c] in which revision 2 undoes revision 1, bundled
+    from revision 0: entries unchanged w.r.t. the base whose last-changed revision lies inside the range)
+    write_bundle -> read_bundle -> install_revisions into a fresh repository that
     holds exactly the ancestry of base: the bundle must list exactly the unique
     ancestors, every one must be installed and its Testament and StrictTestament3
     texts must equal the source's; the reader's target is the target.
@@ -102,7 +104,7 @@ def base_target_pairs(dag):
 
 # ---- part B ---------------------------------------------------------------------------
 
-def check_bundles(dag, assign, pairs, acc):
+def check_bundles(dag, assign, pairs, acc, only_pairs=None):
     from breezy.bzr.bundle.serializer import read_bundle, write_bundle
     from mc import world as mw
     from mc.vfs import new_store
@@ -116,7 +118,7 @@ def check_bundles(dag, assign, pairs, acc):
             with repo.lock_read():
                 want = {r: testaments(repo, r) for r in ids}
             k = 0
-            for b, t in base_target_pairs(dag):
+            for b, t in (only_pairs if only_pairs is not None else base_target_pairs(dag)):
                 k += 1
                 d = dict(hist, repo_format=repo_fmt, bundle_format=bfmt, base=b, target=t)
                 sfx = ":v" + bfmt
@@ -170,10 +172,37 @@ def check_bundles(dag, assign, pairs, acc):
 
 def _work_b(chunk):
     acc = par.Acc()
-    for dag, assign, pairs in chunk:
-        check_bundles(dag, assign, pairs, acc)
+    for item in chunk:
+        dag, assign, pairs = item[:3]
+        check_bundles(dag, assign, pairs, acc, only_pairs=item[3] if len(item) > 3 else None)
         acc.sample({"dag": [list(p) for p in dag], "states": list(assign), "formats": [list(p) for p in pairs]})
     return acc
+
+
+# ---- part B2: a change that is undone inside the bundled range ----------------------------------
+
+UNDO_DAGS = (
+    ((), (0,), (1,), (2,)),        # linear: A, B (change), C (= A again), D
+    ((), (0,), (1,), (0, 2)),      # A, B, C (= A again), D = merge of A's line with C: entries keep C as last-changed
+)
+UNDO_PAIRS = ((0, 3), (0, 2), (None, 3), (1, 3))
+
+
+def undo_histories(state_ids, thorough):
+    """4-revision histories [a, b, a, c]: revision 2 restores revision 0's tree (content, exec bits, names, link
+    targets, kinds go x -> y -> x), revision 3 is a or another state.  Bundled from revision 0 to revision 3 an entry
+    is unchanged with respect to the base although its last-changed revision is neither the base's nor the
+    target's - the patch based writers (0.8/0.9) must record that explicitly."""
+    out = []
+    for dag in UNDO_DAGS:
+        for a in state_ids:
+            for b in state_ids:
+                if a == b:
+                    continue
+                cs = state_ids if thorough else (a, state_ids[(state_ids.index(a) + 1) % len(state_ids)])
+                for c in cs:
+                    out.append((dag, (a, b, a, c)))
+    return out
 
 
 # ---- part M ---------------------------------------------------------------------------
@@ -441,6 +470,29 @@ def run_isolated(fn, cpu_limit):
     raise HarnessError("tamper child ended with status %r and no result" % (status,))
 
 
+class Hang(BaseException):
+    pass
+
+
+def _on_alarm(signum, frame):
+    raise Hang()
+
+
+def run_inprocess(fn, store, snap, limit):
+    """Run fn() in this process on a store restored from snap, with a wall-clock watchdog (pure-Python readers)."""
+    store.restore(snap)
+    old = signal.signal(signal.SIGALRM, _on_alarm)
+    signal.setitimer(signal.ITIMER_REAL, max(60.0, 6 * limit))
+    try:
+        return fn()
+    except Hang:
+        return None
+    finally:
+        signal.setitimer(signal.ITIMER_REAL, 0)
+        signal.signal(signal.SIGALRM, old)
+        store.restore(snap)
+
+
 def norm_patch(p):
     """The tolerance MergeDirective2._verify_patch documents: line endings and trailing blanks."""
     if p is None:
@@ -565,6 +617,13 @@ def _work_t(chunk):
                             code_error(e)
                             return ["undetected", "installed-revision-unreadable:" + type(e).__name__, r.decode("latin-1")]
                 return ["harmless", None, None]
+            # Only artefacts that contain a pack container (v4 bundle, directive with a v4 bundle) can drive native
+            # code into a loop no Python watchdog can interrupt: those attempts run in a forked child under a kernel
+            # CPU limit.  The text formats 0.8/0.9 are read by pure Python: in-process, store restored from the
+            # snapshot each time, with a SIGALRM watchdog (forking is expensive and scales badly across workers).
+            isolate = kind == "directive" or bfmt == "4"
+            if not isolate:
+                limits.setdefault(key, 20.0)
             if key not in limits:
                 # calibrate on the untouched artefact under the present machine load: the limit is 40x what a
                 # clean read+install costs in a forked child, at least HANG_CPU_SECONDS
@@ -576,7 +635,10 @@ def _work_t(chunk):
                                   {"artefact": kind, "outcome": base_res[0]})
                 limits[key] = max(HANG_CPU_SECONDS, 40 * LAST_CHILD["cpu"])
                 acc.count("calibration_runs")
-            res = run_isolated(attempt, limits[key])
+            if isolate:
+                res = run_isolated(attempt, limits[key])
+            else:
+                res = run_inprocess(attempt, store, snap, limits[key])
             tag = kind if kind != "bundle" else "v" + bfmt
             if res is None:
                 outcome = "hang"
@@ -612,9 +674,20 @@ def tamper_items(thorough):
         nm = len(built[6])
         built[0].close()
         sizes.append(nm)
-        for lo in range(0, nm, 12):
-            items.append(a + (lo, min(nm, lo + 12)))
+        # forked attempts (v4 / directive) are kept in few, large slices: concurrent forking is disproportionately
+        # expensive; the in-process ones are spread in slices of 12
+        step = 40 if (a[0] == "directive" or a[2] == "4") else 12
+        for lo in range(0, nm, step):
+            items.append(a + (lo, min(nm, lo + step)))
     return items, arts, sizes
+
+
+def _work_all(chunk):
+    by = {"B": [], "M": [], "T": []}
+    for tag, item in chunk:
+        by[tag].append(item)
+    return (_work_b(by["B"]) if by["B"] else par.Acc(), _work_m(by["M"]) if by["M"] else par.Acc(),
+            _work_t(by["T"]) if by["T"] else par.Acc())
 
 
 def run(ctx):
@@ -628,22 +701,31 @@ def run(ctx):
     else:
         hs = _hist.histories(2, 5, state_ids=(1, 2, 3, 4, 5)) + _hist.histories(3, 4, min_n=3, state_ids=(1, 2, 3, 4))
         bound = "connected DAGs <= 2 revisions x 5 tree states (1-5), 3 revisions x 4 tree states (1-4)"
-        hm = _hist.histories(3, 3, state_ids=(1, 3, 4))
-        mbound = "connected DAGs (2-3 revisions) x 3 tree states (1, 3, 4)"
+        hm = _hist.histories(2, 3, state_ids=(1, 3, 4)) + _hist.histories(3, 2, min_n=3, state_ids=(1, 3))
+        mbound = "connected DAGs of 2 revisions x 3 tree states (1, 3, 4), 3 revisions x 2 tree states (1, 3)"
     hm = [h for h in hm if len(h[0]) >= 2]
     stride = int(os.environ.get("VERIF_DEV_STRIDE", "1") or 1)     # development aid only: every k-th history
     hs, hm = hs[::stride], hm[::stride]
     accb, accm, accd, acct = par.Acc(), par.Acc(), par.Acc(), par.Acc()
+    undo_n = 0
     arts, sizes = [], []
+    # parts B, M and T share one pool (the few long forked tamper slices overlap with the many short items)
+    work = []
+    if "T" in parts:
+        titems, arts, sizes = tamper_items(ctx.thorough)
+        work += [("T", it) for it in titems]
     if "B" in parts:
-        accb = par.merge(par.pmap(_work_b, [(d, a, pairs) for d, a in hs], seed=ctx.seed))
+        hu = undo_histories((1, 2, 3, 4, 5, 6) if ctx.thorough else (1, 2, 3, 4, 5), ctx.thorough)[::stride]
+        undo_n = len(hu)
+        work += [("B", (d, a, pairs)) for d, a in hs] + [("B", (d, a, pairs, UNDO_PAIRS)) for d, a in hu]
     if "M" in parts:
-        accm = par.merge(par.pmap(_work_m, hm, seed=ctx.seed))
+        work += [("M", h) for h in hm]
+    for rb, rm, rt in par.pmap(_work_all, work, seed=ctx.seed):
+        accb.merge(rb)
+        accm.merge(rm)
+        acct.merge(rt)
     if "D" in parts:
         check_directive_fields(accd, ctx.thorough)
-    if "T" in parts:
-        items, arts, sizes = tamper_items(ctx.thorough)
-        acct = par.merge(par.pmap(_work_t, items, seed=ctx.seed))
     if parts != "BMDT" or os.environ.get("VERIF_C40_TAMPER"):
         ctx.assumptions.append("PARTIAL RUN: only parts %s %s" % (parts, os.environ.get("VERIF_C40_TAMPER", "")))
 
@@ -673,6 +755,8 @@ def run(ctx):
         "rule": "B: (history, format, base, target) non-trivial when >1 revision is bundled or base and target trees differ; "
                 "M: every (this, other) pair; D: every grammar element; T: every mutation that changes the artefact",
         "bound": bound,
+        "undo_histories": undo_n,
+        "undo_bound": "4-revision histories [a,b,a,c] on a chain and on A,B,C,merge(A,C); pairs (base,target) in %r" % (UNDO_PAIRS,),
         "merge_bound": mbound,
         "formats": [list(p) for p in pairs],
         "counters": {"B": accb.counters, "M": accm.counters, "T": acct.counters},
